@@ -83,6 +83,10 @@ def symbolic_metadata(S):
             present = S.choose(2) == 1
             S.inputs["has_" + KEYTAG[key]] = present
             vals[key] = S.bytes("md_" + KEYTAG[key]) if present else None
+            if present:
+                # for the native replay: does this path treat the value as decodable UTF-8 (the engine's validity predicate)?
+                t = vals[key].t
+                S.inputs["utf8_" + KEYTAG[key]] = SBool(z3.Or(z3.InRe(t, models.ASCII_RE), models.UTF8_OK(t)))
             if present and key == LOG_LEVEL_KEY and S.fork(eq(vals[key], b"EXCEPTION")):
                 vals[key] = b"EXCEPTION"  # case split: the error level as a concrete value, every other value symbolic
         return vals[key] if vals[key] is not None else default
@@ -253,13 +257,27 @@ def native_extra_text(inputs):
     return {"null": b"null", "bool": b"true", "int": b"7", "float": b"1.5", "str": b'"text"', "list": b"[1, 2]"}[kind]
 
 
+VALID_STANDIN = {"level": b"lvl\xc3\xa9", "message": b"msg\xc3\xa9", "request_id": b"rid\xc3\xa9", "server_id": b"sid\xc3\xa9", "error_kind": b"kind\xc3\xa9"}
+
+
 def native_md(inputs):
+    """The model's metadata as real bytes.  UTF-8 validity is an uninterpreted predicate in the proof, so the model's
+    bytes are replaced by a stand-in of the validity the refuted path assumed (valid: a non-ASCII UTF-8 string /
+    the JSON text of the decoded kind; invalid: 0xff)."""
     md = {}
     for key, tag in KEYTAG.items():
         if inputs.get("has_" + tag):
             v = inputs.get("md_" + tag, b"")
-            if tag == "extra" and inputs.get("extra_kind") is not None and _is_utf8(v):
-                v = native_extra_text(inputs)
+            valid = inputs.get("utf8_" + tag)
+            if tag == "extra":
+                if valid is False:
+                    v = b"\xff"
+                elif inputs.get("extra_kind") is not None or not _is_utf8(v):
+                    v = native_extra_text(inputs)
+            elif valid is True and not _is_utf8(v):
+                v = VALID_STANDIN[tag]
+            elif valid is False and _is_utf8(v):
+                v = b"\xff"
             md[key] = v
     return md
 
@@ -383,9 +401,9 @@ def dispatch_robust(S):
         S.oblige("O5.batch_with_rows_is_data", Implies(Not(zero), r is False and not calls))
     else:
         S.oblige("O5.batch_without_log_keys_is_data", r is False and not calls, kind="trace")
-    if not any(vals.get(k) is not None for k in (LOG_EXTRA_KEY, REQUEST_ID_KEY, SERVER_ID_KEY)):  # a few cheap paths suffice
-        S.canary("O5.canary.on_log_never_called", SBool(z3.BoolVal(not calls)))
-        S.canary("O5.canary.never_consumed", SBool(z3.BoolVal(r is False)))
+    if not is_log and vals.get(LOG_LEVEL_KEY) is None:
+        # stated where the path condition holds no string constraint (the solver must find a model under load)
+        S.canary("O5.canary.every_zero_row_batch_is_a_log_batch", Implies(zero, r is True))
 
 
 # ------------------------------------------------------------------------------------------
@@ -542,6 +560,10 @@ def round_trip(S):
     e_has, e_val = extra_view(E, q)
     S.inputs["probe_present"], S.inputs["probe_value"] = e_has, e_val
 
+    if not has_extra and not has_sid:
+        # stated before the wire's string axioms enter the path condition (the solver must find a model under load)
+        S.canary("O4.canary.every_level_is_INFO", eq(lv_value, "INFO"))
+        S.canary("O4.canary.request_id_always_set", rid.length() > 0)
     out1 = S.outcome(wire._write_message_batch, writer, schema, emitted, server_id=sid)
     S.oblige("O4.emission_raises_nothing", out1.returned, kind="raises", witness=(exc_class(out1.exc).__name__ if out1.raised else ""))
     writes = S.events("write_batch")
@@ -569,9 +591,6 @@ def round_trip(S):
         not_reserved = And(*[Not(eq(q, r)) for r in RESERVED])
         S.oblige("O4.extra_keys_preserved", Implies(not_reserved, Iff(d_has, e_has)))
         S.oblige("O4.extra_values_preserved", Implies(And(not_reserved, e_has), eq(d_val, e_val)))
-        if not has_extra and not has_sid:  # quantifier-free paths: cheap to refute
-            S.canary("O4.canary.text_is_empty", eq(d_text, ""))
-            S.canary("O4.canary.level_is_INFO", eq(level_value(d_level), "INFO"))
 
 
 # ------------------------------------------------------------------------------------------
